@@ -186,4 +186,6 @@ Definition c04_explain (c : c04_case) :=
    map (fun kf => let '(o', w') := run_model c (Some (fst kf)) in
                   (fst kf, show_files c (w_fs w'),
                    dest_good c (dest_of c (snd kf)))) (k_crashes c),
-   (agree_run c, map (agree_crash c) (k_crashes c), map (agree_async c) (k_asyncs c))).
+   (agree_run c, map (agree_crash c) (k_crashes c), map (agree_async c) (k_asyncs c)),
+   (* which part of the Spec: everything / power-loss replay / kernel's view *)
+   (holds c, power_ok c, kernel_holds c)).
